@@ -1,9 +1,10 @@
 SPECIFICATION Spec
 CONSTANTS
   Params <- GenParams
-  Vals <- MCValsG
+  Vals <- ValsA
   MaxB = 3
   MaxRows = 6
+  Ops <- AllOps
   Variant = "chan"
   Depth = 9
 INVARIANT Emit
